@@ -363,6 +363,18 @@ def unknown_atoms(f, spec: TableSpec) -> list[str]:
     return [a for a in norm.atoms_of(f) if spec.match(a) is None]
 
 
+class _Recorder(dict):
+    """Valuation stand-in that records which reference variables a matcher reads."""
+
+    def __init__(self, domains):
+        super().__init__({k: v[0] for k, v in domains.items()})
+        self.read: set[str] = set()
+
+    def __getitem__(self, key):
+        self.read.add(key)
+        return super().__getitem__(key)
+
+
 def table_rule(ctx: Ctx, rule: str, fref: str, views: list[PathView], spec: TableSpec,
                outcome_of: Callable[[PathView, dict, dict], object], ignore_atoms: Callable[[str], bool] | None = None,
                construct: str = "", max_free: int = 6) -> None:
@@ -370,63 +382,71 @@ def table_rule(ctx: Ctx, rule: str, fref: str, views: list[PathView], spec: Tabl
 
     For each path, and each valuation of the reference variables (and of the atoms the reference
     does not know, treated as free) under which all of the path's conditions hold, the path's
-    outcome must equal reference(valuation).
+    outcome must equal reference(valuation).  Every valuation must be covered by some path.
     """
     rows_checked = 0
-    all_vals = list(spec.valuations())
+    names = list(spec.domains)
     mismatches: list[dict] = []
     covered: dict[tuple, set] = {}
     for view in views:
         conds = [view.cond_formula(i) for i, st in enumerate(view.steps) if st.kind == "cond"]
-        if ignore_atoms:
-            pass
-        free_names: list[str] = []
-        extra_formulas = []
+        formulas = list(conds)
         if view.path.exit == "return" and view.path.exit_node.value is not None:
-            extra_formulas.append(view.formula_of(view.path.exit_node.value, len(view.steps)))
-        for c in extra_formulas:
-            for a in unknown_atoms(c, spec):
-                if a not in free_names:
-                    free_names.append(a)
-        for c in conds:
-            for a in unknown_atoms(c, spec):
-                if a not in free_names and not (ignore_atoms and ignore_atoms(a)):
-                    free_names.append(a)
-        ignored = []
-        for c in conds:
-            for a in unknown_atoms(c, spec):
-                if ignore_atoms and ignore_atoms(a) and a not in ignored:
-                    ignored.append(a)
+            formulas.append(view.formula_of(view.path.exit_node.value, len(view.steps)))
+        free_names: list[str] = []
+        rec = _Recorder(spec.domains)
+        for f in formulas:
+            for a in norm.atoms_of(f):
+                m = spec.match(a)
+                if m is None:
+                    if a not in free_names:
+                        free_names.append(a)
+                else:
+                    try:
+                        m(rec)
+                    except Exception:  # a matcher must only index the valuation
+                        raise AnalysisError(f"matcher for atom {a!r} failed while probing its variables")
         if len(free_names) > max_free:
             raise AnalysisError(f"{fref}: too many atoms unknown to the reference table on one path: {free_names}")
+        relevant = [n for n in names if n in rec.read]
+        others = [n for n in names if n not in rec.read]
         compiled = [compile_formula(c, spec) for c in conds]
-        free_space = [dict(zip(free_names + ignored, bits))
-                      for bits in itertools.product((False, True), repeat=len(free_names) + len(ignored))]
-        for val in all_vals:
+        free_space = [dict(zip(free_names, bits)) for bits in itertools.product((False, True), repeat=len(free_names))]
+        other_space = [dict(zip(others, combo)) for combo in itertools.product(*(spec.domains[n] for n in others))]
+        for combo in itertools.product(*(spec.domains[n] for n in relevant)):
+            partial = dict(zip(relevant, combo))
+            probe = dict(rec)  # defaults for the variables the path does not read
+            probe.update(partial)
             for free in free_space:
-                if not all(g(val, free) for g in compiled):
+                if not all(g(probe, free) for g in compiled):
                     continue
-                rows_checked += 1
-                got = outcome_of(view, val, free)
-                want = spec.reference(val)
-                key = tuple(sorted(val.items(), key=lambda kv: kv[0]))
-                covered.setdefault(key, set()).add(repr(got))
-                if got != want:
-                    mismatches.append({
-                        "valuation": {k: v for k, v in val.items()},
-                        "also_depends_on": {k: v for k, v in free.items() if k in free_names},
-                        "expected": repr(want),
-                        "extracted": repr(got),
-                        "path": view.path.describe(),
-                    })
-    uncovered = [dict(val) for val in all_vals
-                 if tuple(sorted(val.items(), key=lambda kv: kv[0])) not in covered]
+                got = outcome_of(view, probe, free)
+                for rest in other_space:
+                    val = dict(rest)
+                    val.update(partial)
+                    if spec.constraint is not None and not spec.constraint(val):
+                        continue
+                    rows_checked += 1
+                    want = spec.reference(val)
+                    key = tuple(val[n] for n in names)
+                    covered.setdefault(key, set()).add(repr(got))
+                    if got != want and len(mismatches) < 50:
+                        mismatches.append({
+                            "valuation": dict(val),
+                            "also_depends_on": dict(free),
+                            "expected": repr(want),
+                            "extracted": repr(got),
+                            "path": view.path.describe(),
+                        })
+                    elif got != want:
+                        mismatches.append({})
+    all_vals = list(spec.valuations())
+    uncovered = [dict(val) for val in all_vals if tuple(val[n] for n in names) not in covered]
     ok = not mismatches and not uncovered
-    facts = {"rows_checked": rows_checked, "valuations": len(all_vals),
-             "paths": len(views)}
+    facts = {"rows_checked": rows_checked, "valuations": len(all_vals), "paths": len(views)}
     msg = ""
     if mismatches:
-        facts["mismatches"] = mismatches[:5]
+        facts["mismatches"] = [m for m in mismatches if m][:5]
         facts["n_mismatches"] = len(mismatches)
         m = mismatches[0]
         msg = (f"decision table of {fref} differs from the reference: for {m['valuation']}"
@@ -435,9 +455,8 @@ def table_rule(ctx: Ctx, rule: str, fref: str, views: list[PathView], spec: Tabl
     elif uncovered:
         facts["uncovered"] = uncovered[:5]
         msg = f"no path of {fref} covers valuation {uncovered[0]}"
-    ctx.tables[f"{ctx.prop}.{rule}"] = [
-        {"valuation": dict(k), "outcomes": sorted(v)} for k, v in sorted(covered.items(), key=lambda kv: repr(kv[0]))
-    ][:200]
+    rows = [{"valuation": dict(zip(names, k)), "outcomes": sorted(v)} for k, v in sorted(covered.items(), key=lambda kv: repr(kv[0]))]
+    ctx.tables[f"{ctx.prop}.{rule}"] = rows[:64] + ([{"truncated": len(rows) - 64}] if len(rows) > 64 else [])
     ctx.record(rule, "TABLE", fref, construct or f"decision table of {fref.split(':')[1]}", ok, facts, msg)
 
 
